@@ -27,6 +27,10 @@ OVERLAYS = [
     ("src/chacha/reference.rs", "verif_ref", "chacha_ref.rs", None, "crate::chacha::reference_verif"),
     ("src/chacha/sse2.rs", "verif_sse2", "chacha_sse2.rs", None, "crate::chacha::sse2"),
     ("src/chacha20.rs", "verif_ctx", "chacha20_ctx.rs", None, "crate::chacha20"),
+    # the SHA-256 vector modules are only compiled with -C target-feature=+sse4.1/+avx: mount them unconditionally for the checks (C16 hook)
+    ("src/hashing/sha2/impl256/mod.rs", "sse41", "@rel:sse41.rs", 'all(target_arch = "x86_64", not(target_feature = "sse4.1"))', "crate::hashing::sha2::impl256"),
+    ("src/hashing/sha2/impl256/mod.rs", "avx", "@rel:avx.rs", 'all(target_arch = "x86_64", not(target_feature = "avx"))', "crate::hashing::sha2::impl256"),
+    ("src/hashing/sha2/impl256/mod.rs", "verif_simd", "sha256_simd.rs", 'target_arch = "x86_64"', "crate::hashing::sha2::impl256"),
     ("src/cryptoutil.rs", "verif_cu", "cryptoutil.rs", None, "crate::cryptoutil"),
     ("src/salsa20.rs", "verif_salsa", "salsa.rs", None, "crate::salsa20"),
     ("src/drg/chacha.rs", "verif_drg", "drg.rs", None, "crate::drg::chacha"),
